@@ -206,14 +206,15 @@ class Context:
         n_new = 0
         lines = []
         known_hit = []
+        known_occ = {}
         for key in sorted(self.viol):
             rec = self.viol[key]
             sig = rec['sig']
             k = self._known_match(rec)
             if k is not None:
-                known_hit.append(sig)
-                lines.append('KNOWN-FINDING: property=%s sig=%s %s (occurrences in this run: %d)'
-                             % (self.prop, sig, k['text'], rec['occurrences']))
+                if sig not in known_hit:
+                    known_hit.append(sig)
+                known_occ[id(k)] = (k, known_occ.get(id(k), (k, 0))[1] + rec['occurrences'])
                 continue
             n_new += 1
             h = hashlib.sha1(key.encode()).hexdigest()[:10]
@@ -229,6 +230,10 @@ class Context:
             lines.append('  case: %s' % json.dumps(jsonable(rec['case']), ensure_ascii=True)[:600])
             lines.append('  expected: %s' % json.dumps(jsonable(rec['expected']), ensure_ascii=True)[:400])
             lines.append('  observed: %s' % json.dumps(jsonable(rec['observed']), ensure_ascii=True)[:400])
+        for k, occ in known_occ.values():
+            lines.insert(0, 'KNOWN-FINDING: property=%s sig=%s %s(occurrences in this run: %d)'
+                         % (self.prop, k['sig'], ('where=%s ' % k['where']) if k['where'] else '', occ)
+                         + ' ' + k['text'])
         cov = dict(self.coverage)
         cov.setdefault('exhaustive', False)
         ev = {'property_id': self.prop, 'tier': self.tier, 'seed': self.seed, 'level': self.level,
